@@ -30,6 +30,7 @@ Families
 from __future__ import annotations
 
 import itertools
+import os
 
 import torch
 
@@ -40,6 +41,9 @@ from mc.models import hedge_world as hw
 
 FAMILIES = {}
 family = hw.family_decorator(FAMILIES)
+#: optional diagnostic outside the claim (default OFF): worlds on user subclasses of the primaries that override
+#: library properties (volatility / variance); see hedge_world.USER_SUBCLASS_WORLDS
+USER_SUBCLASS_WORLDS = os.environ.get("VERIF_USER_SUBCLASS") == "1"
 
 
 # Exact (dyadic) features and models are compared bitwise; anything that goes through a logarithm,
@@ -942,8 +946,8 @@ def run(ctx):
              "hedge_cross: hedging instrument on another stock with a series 1 or 2 steps shorter. hedge_shared_feature: "
              "one ModuleOutput(prev_hedge) object shared by two hedgers on one re-scripted derivative. hedge_lazy: "
              "first vs second evaluation of a never-fitted lazy MLP. hedge_dropout: last column == previous column for "
-             "a Dropout-bearing MLP in training mode (any mask). Worlds include user subclasses of the "
-             "primaries overriding volatility/variance and variance scripts with negative and zero entries. Non-trivial = nodes below which the quantity takes a different value later on some leaf "
+             "a Dropout-bearing MLP in training mode (any mask). Worlds include variance scripts with "
+             "negative and zero entries (user subclasses of the primaries only with VERIF_USER_SUBCLASS=1, outside the claim). Non-trivial = nodes below which the quantity takes a different value later on some leaf "
              "(peeking would be observable) + leaves whose position moves before maturity")
     ctx.assume("models that couple paths (batch normalisation) are outside the property and are not generated")
     ctx.assume("user-supplied pricers of listed derivatives are represented by the documentation's Black-Scholes "
@@ -1029,10 +1033,12 @@ def run(ctx):
         for m in model_specs(1, None):
             if hw.model_ok(m, wh):
                 hblocks.append({"world": wh, "model": m, "probe": False})
-    # USER SUBCLASSES of the primaries overriding documented properties (volatility term structure on a
-    # BrownianStock subclass, floored volatility on a HestonStock subclass), and variance scripts with
+    # variance scripts with negative / zero entries; and, only when VERIF_USER_SUBCLASS=1 (diagnostic outside the
+    # claim), USER SUBCLASSES of the primaries overriding documented properties (volatility term structure on a
+    # BrownianStock subclass, floored volatility on a HestonStock subclass); variance scripts with
     # negative and zero entries (register_buffer scenario sets; the volatility property clamps them)
-    for ul, kind, av in itertools.product(("brownian_ts", "heston_user", "heston", "rough_bergomi"),
+    for ul, kind, av in itertools.product((("brownian_ts", "heston_user") if USER_SUBCLASS_WORLDS else ())
+                                          + ("heston", "rough_bergomi"),
                                           ("european", "lookback") if ctx.quick else market.OPTION_KINDS,
                                           ("std", "neg")):
         if (av == "neg") != (ul in ("heston", "rough_bergomi")):
